@@ -636,7 +636,7 @@ def survivor_program(rnd):
         n[0] += 1
         return ["leaf", ["item", kind, "sv%d" % n[0]]]
 
-    runaway = ["leaf", [rnd.choice(["runaway", "runaway", "lazyrunaway"]), rnd.choice([150, 400]), rnd.choice([0, 0, 1, 2, 3])]]
+    runaway = ["leaf", [rnd.choice(["runaway", "runaway", "lazyrunaway"]), rnd.choice([150, 400]), rnd.choice([0, 0, 1, 2, 3, 4, 4])]]
     deep = [["yield", runaway]]
     if rnd.random() < 0.5:
         deep.insert(0, ["yield", item(1)])
